@@ -459,12 +459,36 @@ def p_clump(env, p, n):
         yield lst
 
 
+def _has_tuple(v):
+    if isinstance(v, tuple):
+        return True
+    return isinstance(v, list) and any(_has_tuple(i) for i in v)
+
+
+def _strip(v, n):
+    """The parts of value v after n levels of list nesting were removed, the
+    list v itself being the first level: n <= 0 or a non-list leave v whole,
+    n == 1 gives the items of v, n == 2 also opens the items of v that are
+    lists, and so on."""
+    if n <= 0 or not isinstance(v, list):
+        yield v
+        return
+    for item in v:
+        yield from _strip(item, n - 1)
+
+
 def p_flatten(env, p, n):
-    """Inverse of Pclump.  Decided only for a flat list with n >= 1 (every
-    reading of 'flatten n levels' gives the elements one by one) and for
-    non-list values (passed through).  n == 0, nested lists (sclang flattens
-    the value, this library counts the value itself as the first level) and
-    tuples are don't-cares."""
+    """Inverse of Pclump: Pflatten(p, n) undoes n levels of clumping, so
+    that Pflatten(Pclump(Pclump(p, j), k), 2) == p and
+    Pflatten(Pclump(Pclump(p, j), k), 1) == Pclump(p, j).  Each list value
+    loses exactly n levels of nesting, its own list being the first one
+    (this library's reading: `flatten([value], n)`; sclang's
+    `value.flatten(n)` followed by yielding the items removes one level
+    more - the library's reading is the one under which the level count
+    matches the number of Pclump applications).  n <= 0 leaves every value
+    whole; non-list values pass through.  Values that contain tuples
+    (Ptuple) are don't-cares: the container type of those values is not
+    decided."""
     s = stream(p, env)
     ns = stream(n, env)
     while True:
@@ -474,15 +498,11 @@ def p_flatten(env, p, n):
         if v is _END or k is _END:
             return
         k = exact_int(k, 'Pflatten n')
-        if isinstance(v, list):
-            if k < 1 or any(isinstance(i, (list, tuple)) for i in v):
-                raise DontCare('Pflatten levels on nested list / n < 1')
-            for item in v:
-                yield item
-        elif isinstance(v, tuple):
-            raise DontCare('Pflatten of a tuple')
-        else:
-            yield v
+        if _has_tuple(v):
+            raise DontCare('Pflatten of a value that contains a tuple')
+        for part in _strip(v, k):
+            env.tick()
+            yield part
 
 
 def p_diff(env, p):
@@ -859,8 +879,19 @@ def selftest():
         ([[1, 2], [3]], 'end')
     assert d(['Pflatten', ['Pclump', ['Pseq', [1, 2, 3], 1, 0], 2], 1]) == \
         ([1, 2, 3], 'end')
-    assert d(['Pflatten', ['Pclump', ['Pseq', [1, 2, 3], 1, 0], 2], 0])[1] \
-        == 'dontcare'
+    assert d(['Pflatten', ['Pclump', ['Pseq', [1, 2, 3], 1, 0], 2], 0]) == \
+        ([[1, 2], [3]], 'end')
+    cc = ['Pclump', ['Pclump', ['Pseq', [1, 2, 3, 4, 5], 1, 0], 2], 2]
+    assert d(cc) == ([[[1, 2], [3, 4]], [[5]]], 'end')
+    assert d(['Pflatten', cc, 1]) == ([[1, 2], [3, 4], [5]], 'end')
+    assert d(['Pflatten', cc, 2]) == ([1, 2, 3, 4, 5], 'end')
+    assert d(['Pflatten', cc, 3]) == ([1, 2, 3, 4, 5], 'end')
+    assert d(['Pflatten', cc, -1]) == d(cc)
+    assert d(['Pflatten', ['Pseq', [[1, [2, [3]]], 5], 1, 0], 1]) == \
+        ([1, [2, [3]], 5], 'end')
+    assert d(['Pflatten', ['Pseq', [[1, [2, [3]]], 5], 1, 0], 2]) == \
+        ([1, 2, [3], 5], 'end')
+    assert d(['Pflatten', ['Ptuple', [1, 2], 1], 1])[1] == 'dontcare'
     # Pdiff
     assert d(['Pdiff', ['Pseq', [1, 4, 9], 1, 0]]) == ([3, 5], 'end')
     # Pconst help: Pconst(5, Pseq([1,2,0.5,0.1],2)) sums to 5
